@@ -7,8 +7,26 @@ import hashlib
 import os
 import time
 
-CONFIG = {"seed": 0, "log": None, "max_delay_ms": 0}
+CONFIG = {"seed": 0, "log": None, "max_delay_ms": 0, "capture_dir": None}
 ORIG = {}
+CURRENT = {"task": None}
+
+
+def _capturing_optimize(self, *a, **k):
+    """optlang.interface.Model.optimize with the raw problem written out first (per process, one JSON line per solve) when a capture directory is
+    configured: what each worker hands to the solver for each task becomes part of the evidence."""
+    d = CONFIG.get("capture_dir")
+    if d and CURRENT["task"] is not None:
+        try:
+            import json
+            import auxcorr
+            self.update()
+            with open(os.path.join(d, f"solves_{os.getpid()}.jsonl"), "a") as f:
+                f.write(json.dumps({"pid": os.getpid(), "task": CURRENT["task"], "problem": auxcorr.raw_dump(self.problem)}) + "\n")
+        except Exception as e:  # the capture must never change what the worker does
+            with open(os.path.join(d, f"errors_{os.getpid()}.txt"), "a") as f:
+                f.write(f"{type(e).__name__}: {e}\n")
+    return ORIG["optimize"](self, *a, **k)
 
 
 def _delay(task):
@@ -28,11 +46,23 @@ def _log(kind, task):
 def fva_step(reaction_id):
     _delay(reaction_id)
     _log("fva", reaction_id)
-    return ORIG["fva_step"](reaction_id)
+    CURRENT["task"] = ["fva", reaction_id]
+    try:
+        return ORIG["fva_step"](reaction_id)
+    finally:
+        CURRENT["task"] = None
 
 
 def _ids_key(ids):
     return ",".join(sorted(ids))
+
+
+def _with_task(task, f, *a):
+    CURRENT["task"] = task
+    try:
+        return f(*a)
+    finally:
+        CURRENT["task"] = None
 
 
 def gene_deletion_worker(ids):
@@ -49,12 +79,12 @@ def reaction_deletion_worker(ids):
 
 def gene_deletion(model, ids):
     _log("gene", _ids_key(ids))
-    return ORIG["gene_deletion"](model, ids)
+    return _with_task(["gene", sorted(ids)], ORIG["gene_deletion"], model, ids)
 
 
 def reaction_deletion(model, ids):
     _log("reaction", _ids_key(ids))
-    return ORIG["reaction_deletion"](model, ids)
+    return _with_task(["reaction", sorted(ids)], ORIG["reaction_deletion"], model, ids)
 
 
 def install():
@@ -62,6 +92,9 @@ def install():
     import cobra.flux_analysis.variability as V
     if ORIG:
         return
+    import optlang.interface as oi
+    ORIG["optimize"] = oi.Model.optimize
+    oi.Model.optimize = _capturing_optimize
     ORIG["fva_step"] = V._fva_step
     ORIG["gene_deletion_worker"] = D._gene_deletion_worker
     ORIG["reaction_deletion_worker"] = D._reaction_deletion_worker
